@@ -330,9 +330,7 @@ func (g *G) addDependent(bs *schema.BlockSchema, depth int) {
 	if bs.Body != nil && bs.Body.AnyAttribute == nil && (len(info.LabelIdx) == 0 || g.coin(0.4)) {
 		for i, n := 0, 1+g.pick(2); i < n; i++ {
 			kind := g.pick(4)
-			if g.O.Simple {
-				kind = g.pick(3) // literal keys only (JSON cannot carry a bare traversal)
-			}
+			// (in JSON a reference key is written "${prov.aliasN}")
 			name := g.id("key")
 			a := g.depKeyAttr(kind)
 			if kind == 0 && g.coin(0.35) {
